@@ -8,7 +8,7 @@
    representable examples.  For arbitrary doubles the tie with the code is the correspondence
    and the oracle (tested_only). *)
 From Coq Require Import String ZArith Bool Arith List PrimFloat.
-From SV Require Import Names Rep Complex Homology Filtration Gen World Small Sweeps Floats VInv FlagSound FlagComplete VRProofs.
+From SV Require Import Names Rep Complex Homology Filtration Gen World Small Sweeps Floats VInv FlagSound FlagComplete VRProofs CopyOk FlagFinal.
 Import ListNotations.
 
 Theorem C12_family_upto4_partial :
@@ -35,18 +35,16 @@ Print Assumptions C12_closeness_examples.
    `close` is the list of pairs for which the code's `distance(...) <= eps` held; the binary64 test
    itself is Floats.close, tied to the code bit for bit on every run (floatcorr).  For every such
    list: the result meets the vertex-set reading, has exactly the embedding's points, and a set B of
-   two or more points carries a simplex EXACTLY WHEN every two points of B are a close pair.
-   (That the working copy inside flagComplex succeeds is tested, not proved.) *)
+   two or more points carries a simplex EXACTLY WHEN every two points of B are a close pair (vr_fam). *)
 Theorem C12_family :
-  forall hp uid u r close vr hp1 c,
+  forall hp uid u r close vr,
   NoDup (simplicesOfOrder r 0) ->
   (forall ij, In ij close -> fst ij < snd ij /\ snd ij < length (simplicesOfOrder r 0)) ->
-  vr_build uid r close = (vr, Ok tt) -> copy_new hp (view_of vr) u = (hp1, c, Ok tt) ->
-  exists r', flagComplex hp vr u = (hp1, r', Ok tt) /\ vinv r' /\
+  vr_build uid r close = (vr, Ok tt) ->
+  exists hp1 r', flagComplex hp vr u = (hp1, r', Ok tt) /\ vinv r' /\
     (forall p, carried r' [p] <-> In p (simplicesOfOrder r 0)) /\
-    (forall B, NoDup B -> 2 <= length B ->
-       (carried r' B <-> forall p q, In p B -> In q B -> p <> q -> closepair (simplicesOfOrder r 0) close p q)).
-Proof. exact vr_family. Qed.
+    vr_fam (simplicesOfOrder r 0) close r'.
+Proof. exact vr_complex_family. Qed.
 Print Assumptions C12_family.
 
 (* eps1 <= eps2 gives fewer close pairs: the family at eps1 is contained in the family at eps2 *)
